@@ -120,8 +120,21 @@ pub fn dispatcher_instantiate_msg(c: &Cfg) -> basset_sei_rewards_dispatcher::msg
     }
 }
 
-/// Build the fully wired world. `owners`: per-contract owner addresses (hub, reward, dispatcher, registry).
+#[derive(Clone, Debug, Default)]
+pub struct WorldOpts {
+    pub bsei_initial: Vec<cw20::Cw20Coin>,
+    pub stsei_initial: Vec<cw20::Cw20Coin>,
+    /// point the dispatcher's bSei reward contract at the dummy contract (token world of C18: balances that were
+    /// never announced to the reward contract must stay transferable)
+    pub reward_is_dummy: bool,
+}
+
 pub fn build_world(c: &Cfg) -> Result<World, String> {
+    build_world_with(c, &WorldOpts::default())
+}
+
+/// Build the fully wired world.
+pub fn build_world_with(c: &Cfg, o: &WorldOpts) -> Result<World, String> {
     let mut w = World::new(START_TIME, c.unbonding_period, USEI, KUSD, c.price);
     w.other_prices.insert(UATOM.into(), dec("7.5"));
     let es = |e: cosmwasm_std::StdError| e.to_string();
@@ -144,7 +157,11 @@ pub fn build_world(c: &Cfg) -> Result<World, String> {
         )
         .map_err(es)
     })?;
-    let dmsg = dispatcher_instantiate_msg(c);
+    let mut dmsg = dispatcher_instantiate_msg(c);
+    if o.reward_is_dummy {
+        dmsg.bsei_reward_contract = DUMMY.into();
+    }
+    let (bsei_initial, stsei_initial) = (o.bsei_initial.clone(), o.stsei_initial.clone());
     instantiate_with(&mut w, DISPATCHER, Kind::Dispatcher, OWNER, |d, e, i| {
         basset_sei_rewards_dispatcher::contract::instantiate(d, e, i, dmsg).map_err(es)
     })?;
@@ -170,7 +187,7 @@ pub fn build_world(c: &Cfg) -> Result<World, String> {
                 name: "bonded sei".into(),
                 symbol: "BSEI".into(),
                 decimals: 6,
-                initial_balances: vec![],
+                initial_balances: bsei_initial,
                 hub_contract: HUB.into(),
             },
         )
@@ -185,7 +202,7 @@ pub fn build_world(c: &Cfg) -> Result<World, String> {
                 name: "staked sei".into(),
                 symbol: "STSEI".into(),
                 decimals: 6,
-                initial_balances: vec![],
+                initial_balances: stsei_initial,
                 hub_contract: HUB.into(),
                 marketing: Some(cw20_base::msg::InstantiateMarketingInfo {
                     project: None,
